@@ -9,6 +9,7 @@ def handle (line : String) : String :=
   | ["parse", d] => parseLine (unhex d)
   | ["rewrite", d] => rewriteLine (unhex d)
   | ["spec", d] => specLine (unhex d)
+  | ["specrfc", d] => specRfcLine (unhex d)
   | "scan" :: f :: _ :: entries => scanLine (unhex f) entries
   | "recreateio" :: c :: rs :: ws :: _ :: entries => recreateIoLine (unhex c) rs ws entries
   | ["library", f] => libraryLine (unhex f)
